@@ -57,7 +57,7 @@ func registerPW() {
 		Assume: []string{"thin simulation dimension: evaluated on the simulator's runs, incl. concurrent ones"},
 		Real:   realCommon, Sim: pwSim}
 	plans["C12"] = &Plan{ID: "C12", Level: "fault_enumeration",
-		Legs:   append([]Leg{{World: "uw", Profile: "sweep", Quick: 12, Weight: 2}, {World: "pw", Profile: "sweep", Quick: 30, Weight: 2}, {World: "uw", Profile: "wellformed", Quick: 3000, Weight: 1}, {World: "uw", Profile: "mixed", Quick: 3000, Weight: 1}}, bwC12Legs()...),
+		Legs:   append([]Leg{{World: "uw", Profile: "sweep", Quick: 12, Weight: 2}, {World: "pw", Profile: "sweep", Quick: 30, Weight: 2}, {World: "uw", Profile: "wellformed", Quick: 3000, Weight: 1}, {World: "uw", Profile: "mixed", Quick: 3000, Weight: 1}, {World: "pw", Profile: "hostile", Quick: 800, Weight: 1}}, bwC12Legs()...),
 		Rule:   "fault enumeration: for each seeded base scenario the single-fault space is swept, not sampled - Unpack: every compressed-byte offset x {err, trunc, uneof, err+data} (+ transient err), oracle: nil => dst equals the reference interpretation of the whole archive, policy rejections are illegal-slug errors; plus fault-free sequences of 1-3 archives into one (possibly populated) destination: nil => every link entry that is the last for its path is at that path with its target; Pack: every writer call index 1-12 x {err, partial+err} x {sticky, transient} and strided byte offsets, oracle: device error => Pack error and nil Meta; Build: every peer-call index x its fault kinds, oracles: error diagnostic returned, builder refuses afterwards (porcupine history check), no bundle from a failed build, target not openable at any callback boundary or with any torn manifest prefix, finder diagnostics delivered once with severity/text intact and file names rewritten. evaluations = faulted runs; distinct = scenario hash; non-trivial = a fault actually fired.",
 		Assume: []string{"crash model: process death at a callback boundary with all completed system calls durable (go-slug never syncs and claims nothing about page-cache loss)", "syscall-level faults (EIO on open/rename) are not injected: no property quantifies over them", "a short write with nil error is not a fault kind (compress/flate discards the count)"},
 		Real:   realCommon, Sim: append(pwSim, "SimReader fault plans", "fault-injecting fetcher/registry/finder peers", "porcupine poison-history model")}
